@@ -1,6 +1,8 @@
 mod actors;
+mod algebra;
 mod graphs;
 mod hooks;
+mod testers;
 
 fn arg(args: &[String], name: &str) -> Option<String> {
     args.iter().position(|a| a == name).and_then(|i| args.get(i + 1).cloned())
@@ -14,6 +16,19 @@ fn main() {
     let par: usize = arg(&args, "--par").and_then(|s| s.parse().ok()).unwrap_or(1);
     match cmd {
         "graphs" => graphs::main_graphs(&inp, &out, par),
+        "algebra" => algebra::main_algebra(
+            &out,
+            &arg(&args, "--what").unwrap_or_default(),
+            arg(&args, "--l").and_then(|s| s.parse().ok()).unwrap_or(3),
+            arg(&args, "--m").and_then(|s| s.parse().ok()).unwrap_or(2),
+            arg(&args, "--seed").and_then(|s| s.parse().ok()).unwrap_or(1),
+        ),
+        "testers" => testers::main_testers(&inp, &out),
+        "refobjs" => testers::main_refobjs(
+            &out,
+            arg(&args, "--values").and_then(|s| s.parse().ok()).unwrap_or(2),
+            arg(&args, "--maxlen").and_then(|s| s.parse().ok()).unwrap_or(3),
+        ),
         "actors" => actors::main_actors(&inp, &out, args.iter().any(|a| a == "--real-counts")),
         _ => {
             eprintln!("usage: vh <graphs> --in F --out F [--par N]");
